@@ -813,7 +813,7 @@ impl Context {
 
     pub(crate) fn def_lit(
         &self,
-        name: &str,
+        name: impl std::fmt::Display,
         lit: &Literal,
         ty: &mut CodegenTy,
     ) -> anyhow::Result<String> {
